@@ -3,6 +3,7 @@ package main
 import (
 	"fmt"
 	"strings"
+	"sync"
 )
 
 // Obligation is one proof obligation: under the declarations and assumptions that were in force
@@ -20,6 +21,8 @@ type Obligation struct {
 	Cover   bool // expected answer is sat (vacuity guard)
 	Timeout int
 	Bounded string
+	Slow    bool // thorough tier only
+	Known   *KnownFinding // this obligation is the listed input class of a known finding
 }
 
 // VC accumulates declarations, assumptions and obligations for one verification unit.
@@ -36,6 +39,13 @@ type VC struct {
 	Outputs  []InputConst // named output terms (results, final pointee leaves) for replay comparison
 	Notes    []string // assumptions made by the translation (reported in evidence)
 	notesSet map[string]bool
+	symDeps  map[string][]string
+	symBase  map[string]bool
+	closure  map[string]map[string]bool
+	assumeBase map[int]map[string]bool
+	symMu    sync.Mutex
+	defLen   map[string]int
+	assumeSize map[int]int
 }
 
 type InputConst struct {
@@ -49,6 +59,9 @@ type SplitCase struct {
 	Term T
 	Lo, Hi int64
 	Src  string
+	// bit-slice split: bits [BitLo, BitHi] of the declared constant BitsOf are fixed per case
+	BitsOf       string
+	BitHi, BitLo int
 }
 
 func newVC(unit string) *VC {
@@ -123,15 +136,109 @@ func (vc *VC) oblige(o *Obligation) {
 
 // Query renders the SMT-LIB text of an obligation (optionally restricted to one split case).
 func (vc *VC) Query(o *Obligation, prelude string, splitAsserts []T, wantModel bool) string {
+	return vc.QuerySliced(o, prelude, splitAsserts, wantModel, nil)
+}
+
+// QuerySliced is Query restricted to the assumptions whose index is in keep (nil: all).
+func (vc *VC) QuerySliced(o *Obligation, prelude string, splitAsserts []T, wantModel bool, keep map[int]bool) string {
 	var sb strings.Builder
 	sb.WriteString(prelude)
 	sb.WriteString("; ---- unit " + vc.Unit + " obligation " + o.Name + "\n")
+	// split cases that fix a declared constant are substituted at its declaration (solvers exploit
+	// a definition far better than an asserted equality)
+	subst := map[string]string{}
+	var restAsserts []T
+	for _, s := range splitAsserts {
+		if strings.HasPrefix(s.S, "(= ") {
+			parts := strings.Fields(strings.TrimSuffix(strings.TrimPrefix(s.S, "(= "), ")"))
+			if len(parts) == 2 && !strings.HasPrefix(parts[0], "(") && !strings.HasPrefix(parts[0], "#") {
+				subst["(declare-const "+parts[0]+" "] = parts[1]
+				continue
+			}
+		}
+		restAsserts = append(restAsserts, s)
+	}
+	// bit-slice cases: (=bits NAME HI LO VALUE)
+	type fix struct {
+		hi, lo int
+		val    uint64
+	}
+	bitFix := map[string][]fix{}
+	var rest2 []T
+	for _, s := range restAsserts {
+		if strings.HasPrefix(s.S, "(=bits ") {
+			var name string
+			var hi, lo int
+			var val uint64
+			fmt.Sscanf(strings.TrimSuffix(s.S, ")"), "(=bits %s %d %d %d", &name, &hi, &lo, &val)
+			bitFix[name] = append(bitFix[name], fix{hi, lo, val})
+			continue
+		}
+		rest2 = append(rest2, s)
+	}
+	restAsserts = rest2
+	splitAsserts = restAsserts
 	for _, d := range vc.decls[:o.nDecls] {
+		if len(bitFix) > 0 && strings.HasPrefix(d, "(declare-const ") {
+			name := strings.Fields(d)[1]
+			if fixes, ok := bitFix[name]; ok {
+				sort := strings.TrimSuffix(strings.TrimSpace(d[len("(declare-const "+name):]), ")")
+				w := sortWidth(sort)
+				sb.WriteString(fmt.Sprintf("(declare-const %s!free %s)\n", name, sort))
+				// assemble from the most significant bit down
+				var parts []string
+				pos := w - 1
+				for pos >= 0 {
+					var cur *fix
+					for i := range fixes {
+						if fixes[i].hi == pos {
+							cur = &fixes[i]
+						}
+					}
+					if cur != nil {
+						parts = append(parts, fmt.Sprintf("#b%0*b", cur.hi-cur.lo+1, cur.val))
+						pos = cur.lo - 1
+						continue
+					}
+					// free run down to the next fixed range
+					end := 0
+					for i := range fixes {
+						if fixes[i].hi < pos && fixes[i].hi+1 > end {
+							end = fixes[i].hi + 1
+						}
+					}
+					parts = append(parts, fmt.Sprintf("((_ extract %d %d) %s!free)", pos, end, name))
+					pos = end - 1
+				}
+				body := parts[0]
+				if len(parts) > 1 {
+					body = "(concat " + strings.Join(parts, " ") + ")"
+				}
+				sb.WriteString(fmt.Sprintf("(define-fun %s () %s %s)\n", name, sort, body))
+				continue
+			}
+		}
+		if len(subst) > 0 && strings.HasPrefix(d, "(declare-const ") {
+			done := false
+			for pre, val := range subst {
+				if strings.HasPrefix(d, pre) {
+					name := strings.Fields(d)[1]
+					sort := strings.TrimSuffix(strings.TrimSpace(d[len("(declare-const "+name):]), ")")
+					sb.WriteString(fmt.Sprintf("(define-fun %s () %s %s)\n", name, sort, val))
+					done = true
+				}
+			}
+			if done {
+				continue
+			}
+		}
 		sb.WriteString(d)
 		sb.WriteByte('\n')
 	}
 	for i, a := range vc.assumes[:o.nAssume] {
-		_ = i
+		if keep != nil && !keep[i] {
+			continue
+		}
 		sb.WriteString("(assert " + a.S + ")\n")
 	}
 	for _, s := range splitAsserts {
@@ -166,4 +273,184 @@ func (vc *VC) output(path string, t T) {
 	name := fmt.Sprintf("out!%d", vc.ctr)
 	vc.decls = append(vc.decls, fmt.Sprintf("(define-fun %s () %s %s)", name, t.Sort, t.S))
 	vc.Outputs = append(vc.Outputs, InputConst{name, path, t.Sort, len(vc.decls)})
+}
+
+// ---- relevance slicing -------------------------------------------------------------------------
+
+func (vc *VC) buildSymtab() {
+	if vc.symDeps != nil {
+		return
+	}
+	vc.symDeps = map[string][]string{}
+	vc.symBase = map[string]bool{}
+	for _, d := range vc.decls {
+		f := strings.Fields(d)
+		if len(f) < 2 {
+			continue
+		}
+		name := f[1]
+		switch f[0] {
+		case "(declare-const", "(declare-fun":
+			vc.symBase[name] = true
+			vc.symDeps[name] = nil
+		case "(define-fun":
+			vc.symDeps[name] = nil
+		}
+	}
+	for _, d := range vc.decls {
+		if !strings.HasPrefix(d, "(define-fun ") {
+			continue
+		}
+		name := strings.Fields(d)[1]
+		vc.symDeps[name] = vc.tokensIn(d[len("(define-fun ")+len(name):])
+	}
+	vc.closure = map[string]map[string]bool{}
+}
+
+func (vc *VC) tokensIn(s string) []string {
+	var out []string
+	seen := map[string]bool{}
+	start := -1
+	flush := func(end int) {
+		if start >= 0 {
+			tok := s[start:end]
+			if _, ok := vc.symDeps[tok]; ok && !seen[tok] {
+				seen[tok] = true
+				out = append(out, tok)
+			}
+			start = -1
+		}
+	}
+	for i := 0; i < len(s); i++ {
+		c := s[i]
+		if c == ' ' || c == '(' || c == ')' || c == '\n' || c == '\t' {
+			flush(i)
+		} else if start < 0 {
+			start = i
+		}
+	}
+	flush(len(s))
+	return out
+}
+
+// baseOf returns the declared constants a name depends on.
+func (vc *VC) baseOf(name string) map[string]bool {
+	if c, ok := vc.closure[name]; ok {
+		return c
+	}
+	res := map[string]bool{}
+	vc.closure[name] = res // cycle guard (none expected)
+	if vc.symBase[name] {
+		res[name] = true
+		return res
+	}
+	for _, d := range vc.symDeps[name] {
+		for b := range vc.baseOf(d) {
+			res[b] = true
+		}
+	}
+	return res
+}
+
+func (vc *VC) baseOfTerm(t string) map[string]bool {
+	res := map[string]bool{}
+	for _, tok := range vc.tokensIn(t) {
+		for b := range vc.baseOf(tok) {
+			res[b] = true
+		}
+	}
+	return res
+}
+
+// Slice selects the assumptions relevant to obligation o: those sharing a declared constant with the
+// goal, extended `depth` times through the selected assumptions.
+func (vc *VC) Slice(o *Obligation, depth int) map[int]bool {
+	vc.symMu.Lock()
+	defer vc.symMu.Unlock()
+	vc.buildSymtab()
+	if vc.assumeBase == nil {
+		vc.assumeBase = map[int]map[string]bool{}
+	}
+	rel := vc.baseOfTerm(o.Guard.S + " " + o.Goal.S)
+	keep := map[int]bool{}
+	for d := 0; d < depth; d++ {
+		added := false
+		next := map[string]bool{}
+		for k := range rel {
+			next[k] = true
+		}
+		for i := 0; i < o.nAssume; i++ {
+			if keep[i] {
+				continue
+			}
+			ab, ok := vc.assumeBase[i]
+			if !ok {
+				ab = vc.baseOfTerm(vc.assumes[i].S)
+				vc.assumeBase[i] = ab
+			}
+			hit := false
+			for k := range ab {
+				if rel[k] {
+					hit = true
+					break
+				}
+			}
+			if hit {
+				keep[i] = true
+				added = true
+				for k := range ab {
+					next[k] = true
+				}
+			}
+		}
+		rel = next
+		if !added {
+			break
+		}
+	}
+	return keep
+}
+
+// LightSlice keeps the assumptions whose transitive definition text is smaller than limit bytes.
+func (vc *VC) LightSlice(o *Obligation, limit int) map[int]bool {
+	vc.symMu.Lock()
+	defer vc.symMu.Unlock()
+	vc.buildSymtab()
+	if vc.defLen == nil {
+		vc.defLen = map[string]int{}
+		for _, d := range vc.decls {
+			if strings.HasPrefix(d, "(define-fun ") {
+				vc.defLen[strings.Fields(d)[1]] = len(d)
+			}
+		}
+		vc.assumeSize = map[int]int{}
+	}
+	keep := map[int]bool{}
+	for i := 0; i < o.nAssume; i++ {
+		sz, ok := vc.assumeSize[i]
+		if !ok {
+			seen := map[string]bool{}
+			var walk func(n string)
+			total := len(vc.assumes[i].S)
+			walk = func(n string) {
+				if seen[n] {
+					return
+				}
+				seen[n] = true
+				total += vc.defLen[n]
+				for _, d := range vc.symDeps[n] {
+					walk(d)
+				}
+			}
+			for _, tok := range vc.tokensIn(vc.assumes[i].S) {
+				walk(tok)
+			}
+			sz = total
+			vc.assumeSize[i] = sz
+		}
+		if sz < limit {
+			keep[i] = true
+		}
+	}
+	return keep
 }
